@@ -720,6 +720,11 @@ func (s *DDSketchWithExactSummaryStatistics) Reweight(factor float64) error {
 		return err
 	}
 	s.summaryStatistics.Reweight(factor)
+	if s.DDSketch.IsEmpty() {
+		// All the counts of the bins have underflowed to zero, even though
+		// their total may not have: nothing is left.
+		s.summaryStatistics.Clear()
+	}
 	return nil
 }
 
